@@ -37,11 +37,21 @@ else:
     from typing_extensions import Protocol
 
 _SUPERSCRIPT_CHARS = [unicodedata.lookup("SUPERSCRIPT %s" % num)
-                      for num in ["TWO", "THREE", "FOUR", "FIVE", "SIX",
-                                  "SEVEN", "EIGHT", "NINE"]]
+                      for num in ["ZERO", "ONE", "TWO", "THREE", "FOUR",
+                                  "FIVE", "SIX", "SEVEN", "EIGHT", "NINE"]]
 _MIDDLEDOT = unicodedata.lookup('MIDDLE DOT')
 del unicodedata
-_POWER_CHARS = ['', ''] + _SUPERSCRIPT_CHARS
+_POWER_CHARS = ['', ''] + _SUPERSCRIPT_CHARS[2:]
+
+
+def _power_chars(exp: int) -> str:
+    """Return `exp` (>= 0) as superscript, nothing for 0 and 1."""
+    try:
+        return _POWER_CHARS[exp]
+    except IndexError:
+        return ''.join(_SUPERSCRIPT_CHARS[int(digit)] for digit in str(exp))
+
+
 _MUL_SIGN = _MIDDLEDOT
 _DIV_SIGN = '/'
 
@@ -411,9 +421,9 @@ class Term(ItemSequenceT[T]):
             for i, s in enumerate(elem_str.split(_DIV_SIGN)):
                 e = exp if i == 0 else -exp
                 if e > 0:
-                    elems_pos_exp.append('%s%s' % (s, _POWER_CHARS[absexp]))
+                    elems_pos_exp.append('%s%s' % (s, _power_chars(absexp)))
                 else:
-                    elems_neg_exp.append('%s%s' % (s, _POWER_CHARS[absexp]))
+                    elems_neg_exp.append('%s%s' % (s, _power_chars(absexp)))
         if elems_pos_exp:
             pos_exp_part = _MUL_SIGN.join(elems_pos_exp)
         else:
